@@ -926,14 +926,14 @@ def replay(inp):
 
 
 MANIFEST_ENTRY = {
-    'technique': 'Lean 4 proof by induction over the sweep control flow, on the hand model and on the statement-level translation of eight '
+    'technique': 'Lean 4 proof by induction over the sweep control flow, on the hand model and on the statement-level translation of nine '
                  '*_seq bodies + translator-generated shape/dtype/family facts + exhaustive small-scope differential testing of every *_seq',
     'text': ('PROVED for all inputs (Lean 4, no sorry, standard axioms): `sweep_eq_map` — for EVERY recurrence family and EVERY non-empty '
              'strictly ascending order list the one-pass sweep with a running index returns `ns.map eval`, in order, one row per order (hand '
              'model of the control flow; instances for jacobi, hermite He/H, laguerre, dickson1/2, Qbfs and the jacobi/hermite derivative '
              'sweeps); `table_lookup_eq_map` for every list of pairs; the NumPy broadcasting shape rule.  TRANSLATED from the current source '
              'and re-checked by the kernel each run: the bodies of jacobi_seq, hermite_He_seq, hermite_H_seq, hermite_He_der_seq, '
-             'hermite_H_der_seq, laguerre_seq, dickson1_seq, dickson2_seq statement by statement (running index, conditional row writes, early '
+             'hermite_H_der_seq, laguerre_seq, dickson1_seq, dickson2_seq, Qbfs_seq statement by statement (running index, conditional row writes, early '
              'returns, loop; state addressed by generated variable-name accessors) — each PROVED to return ns.map of the TRANSLATED single-order '
              'function for every non-empty strictly ascending list; the dtype of the rows of all nine value *_seq (theorem: it can hold floats '
              'for bool/int/float/complex coordinates — false on the pinned tree); the shape of the constants in the eight Chebyshev *_seq '
